@@ -337,6 +337,21 @@ for _pid in ("C01", "C02", "C03", "C15"):
     PROPS[_pid]["stages"].append({"name": "release_overflow_checks", "build": "relchk", "bin": PROPS[_pid]["stages"][0]["bin"]})
     # ... and on a release build for the host CPU (-C target-cpu=native: fma, avx2, ... enabled)
     PROPS[_pid]["stages"].append({"name": "release_native_cpu", "build": "native", "bin": PROPS[_pid]["stages"][0]["bin"]})
+# C01 and C15 are also executed as a 32-BIT build (Miri with an i686 target: the only way to run
+# 32-bit code here), interpreter-sized.
+PROPS["C01"]["stages"].append({"name": "miri32", "build": "miri32", "bin": "c01", "shards": {"quick": 6, "thorough": 12}, "timeout": {"quick": 1500, "thorough": 3600}})
+PROPS["C15"]["stages"].append({"name": "miri32", "build": "miri32", "bin": "c15", "shards": {"quick": 4, "thorough": 8}, "timeout": {"quick": 1500, "thorough": 3600}})
+# The index-arithmetic properties whose interpreter stage uses Stacked Borrows run that same stage a
+# second time as a 32-bit build ("as": the stage logic the binary is asked for).
+for _pid in ("C03", "C06", "C10", "C12", "C14"):
+    _m = [s for s in PROPS[_pid]["stages"] if s["name"] == "miri"][0]
+    _c = dict(_m)
+    _c.update({"name": "miri32", "build": "miri32", "as": "miri"})
+    PROPS[_pid]["stages"].append(_c)
+# C20 (bin / hop / remaining-frames arithmetic in usize) gets an interpreter-sized 32-bit stage of
+# its own. -Zmiri-deterministic-floats: the interpreter otherwise perturbs every cos() by a random
+# ulp, and the monitors compare a Window's values across calls bit for bit.
+PROPS["C20"]["stages"].append({"name": "miri32", "build": "miri32", "bin": "c20", "shards": {"quick": 8, "thorough": 16}, "miriflags": "-Zmiri-deterministic-floats", "timeout": {"quick": 1500, "thorough": 3600}})
 for _pid, _p in PROPS.items():
     if not any(s["build"] == "release" for s in _p["stages"]):
         _main = [s for s in _p["stages"] if s["name"] == "main"][0]
@@ -368,6 +383,17 @@ _ADDED = {
 }
 _ALL = ("Every property additionally runs its main workload on a stock release build (assertions and overflow checks off). "
         "Violations are written to a side-car file as they are observed, so a stage that later hangs or crashes still delivers them.")
+_M32 = {
+    "C01": " A 32-bit build of dasp is executed too (Miri, i686 target): per conversion pair ~60 (thorough: ~400) structured boundary values and 40 (400) random ones.",
+    "C15": " A 32-bit build of dasp is executed too (Miri, i686 target): construction / From on boundary and out-of-range backing values and the operators on a 14 x 14 (quick) / 38 x 38 (thorough) value set, all eight types.",
+}
+_M32["C20"] = " A 32-bit build of dasp is executed too (Miri, i686 target): every (L, bin, hop) with L <= 6 (quick) / 9 (thorough), hops around the 8/16/24/31-bit boundaries and the top of the 32-bit range, short Window iterators."
+for _pid in ("C03", "C06", "C10", "C12", "C14"):
+    _M32[_pid] = " The interpreter stage runs a second time as a 32-bit build of dasp (Miri, i686 target)."
+for _pid, _t in _M32.items():
+    _ADDED[_pid] = _ADDED.get(_pid, "Also:") + _t
+    if "32-bit" not in PROPS[_pid]["technique"]:
+        PROPS[_pid]["technique"] += "; a 32-bit build executed under Miri (i686)"
 for _pid, _p in PROPS.items():
     if _pid in _ADDED and _ADDED[_pid] not in _p.get("level_text", ""):
         _p["level_text"] = _p.get("level_text", "") + " " + _ADDED[_pid] + " " + _ALL
